@@ -175,6 +175,10 @@ pub fn structure_stats(rep: &mut Report, r: &StructReport) {
     rep.max("max_output_chain", r.max_output_chain as f64);
     if r.table_done {
         rep.count("automata_table_validated", 1);
+        rep.count("product_pairs_validated", r.product_pairs as u64);
+        if r.table_truncated {
+            rep.count("automata_table_validation_truncated", 1);
+        }
         if r.table_sampled {
             rep.count("automata_table_validated_sampled_symbols", 1);
         }
